@@ -183,6 +183,10 @@ func queryHost(ch *core.Chooser, hosts []string) string {
 		return "2001:db8::5"
 	case 10:
 		return strings.Repeat("a", 60) + "." + h
+	case 11:
+		return "_dmarc." + h
+	case 12:
+		return []string{"localhost", "", h + ":8080"}[ch.Intn("q.oddhost", 3)]
 	}
 	return h
 }
@@ -203,7 +207,7 @@ func GenOp(ch *core.Chooser, hosts []string, kinds []int) Op {
 			genDNSFields(ch, hosts, &o)
 			break
 		}
-		scheme := []string{"http://", "https://", "ws://"}[ch.Intn("q.scheme", 3)]
+		scheme := []string{"http://", "https://", "ws://", "https://", "wss://", "HTTPS://"}[ch.Intn("q.scheme", 6)]
 		o.URL = scheme + queryHost(ch, hosts) + webPaths[ch.Intn("q.path", len(webPaths))]
 		if ch.Intn("q.longurl", 40) == 39 {
 			// longer than the 4 KiB the library looks at
